@@ -135,6 +135,7 @@ type State struct {
 	approx  bool
 	notes   []NoteRec
 	lits    map[int64]bool
+	bind    map[string]*big.Int // small-domain variables pinned to one value by the path condition
 }
 
 type KnownSig struct {
@@ -186,6 +187,12 @@ func (st *State) clone() *State {
 		n.lits[k] = true
 	}
 	n.forced = nil
+	if st.bind != nil {
+		n.bind = make(map[string]*big.Int, len(st.bind))
+		for k, v := range st.bind {
+			n.bind[k] = v
+		}
+	}
 	if st.extra != nil {
 		n.extra = make(map[string]interface{}, len(st.extra))
 		for k, v := range st.extra {
@@ -206,11 +213,102 @@ func (st *State) addPC(c *Term) {
 		for _, a := range c.Args {
 			st.pc = append(st.pc, a)
 			st.lits[a.ID] = true
+			st.learn(a)
 		}
 		return
 	}
 	st.pc = append(st.pc, c)
 	st.lits[c.ID] = true
+	st.learn(c)
+}
+
+// subst replaces pinned variables by their values (constructors fold the result).
+func (st *State) subst(t *Term) *Term {
+	if len(st.bind) == 0 || t.IsConst() {
+		return t
+	}
+	return substTerm(t, st.bind, map[int64]*Term{})
+}
+
+func substTerm(t *Term, bind map[string]*big.Int, cache map[int64]*Term) *Term {
+	if t.Op == OConst {
+		return t
+	}
+	if r, ok := cache[t.ID]; ok {
+		return r
+	}
+	r := t
+	if t.Op == OVar {
+		if v, ok := bind[t.Name]; ok {
+			switch t.S.K {
+			case KBool:
+				r = BoolConst(v.Sign() != 0)
+			case KInt:
+				r = IntConst(v)
+			default:
+				r = BVConst(v, t.S.W)
+			}
+		}
+	} else if len(t.Args) > 0 {
+		changed := false
+		args := make([]*Term, len(t.Args))
+		for i, a := range t.Args {
+			args[i] = substTerm(a, bind, cache)
+			if args[i] != a {
+				changed = true
+			}
+		}
+		if changed {
+			r = rebuild(t, args)
+		}
+	}
+	cache[t.ID] = r
+	return r
+}
+
+// learn pins a variable of at most 8 bits when the conjuncts that mention only it leave a
+// single value.
+func (st *State) learn(c *Term) {
+	c = st.subst(c)
+	v := soleVar(c)
+	if v == nil || v.S.K != KBV || v.S.W > 8 {
+		return
+	}
+	if _, done := st.bind[v.Name]; done {
+		return
+	}
+	var own []*Term
+	for _, p := range st.pc {
+		p = st.subst(p)
+		if soleVar(p) == v {
+			own = append(own, p)
+		}
+	}
+	model := map[string]*big.Int{}
+	var only *big.Int
+	for val := 0; val < 1<<uint(v.S.W); val++ {
+		model[v.Name] = big.NewInt(int64(val))
+		cache := map[int64]*Term{}
+		ok := true
+		for _, p := range own {
+			if !evalTerm(p, model, cache).IsTrue() {
+				ok = false
+				break
+			}
+		}
+		if ok {
+			if only != nil {
+				return
+			}
+			only = model[v.Name]
+		}
+	}
+	if only != nil {
+		if st.bind == nil {
+			st.bind = map[string]*big.Int{}
+		}
+		st.bind[v.Name] = only
+	}
 }
 
 func (st *State) curG() *G { return st.gs[st.cur] }
